@@ -139,6 +139,24 @@ def Phs.isOn (p : Phs α) (x : List α) : Bool := ceq (p.pathLength x) p.c
 /-- `uniformInBall(1, v)` given the direction and the radius scale -/
 def ballPoint (dir : List α) (radiusScale : α) : List α := dir.map (radiusScale * ·)
 
+/-- `RNG::uniformInBall(r, v)` as coded: the ball's dimension is `v.size()`; `dir` is what `uniformNormalVector(v)` wrote
+(a unit vector of that size), `u` the `uniformReal(0,1)` draw; `radiusScale = r * pow(u, 1.0 / v.size())`.  `root n u`
+stands for `pow(u, 1.0/n)` (`Num` has no `pow`; the driver instantiates it with `Float.pow`). -/
+def uniformInBall (root : Nat → α → α) (r : α) (dir : List α) (u : α) : List α :=
+  ballPoint dir (r * root dir.length u)
+
+/-- `RNG::uniformProlateHyperspheroid(phs, value)` as coded: a fresh vector of size `phs->getDimension()` is filled by
+`uniformInBall(1.0, ·)` and transformed — the ball's dimension IS the PHS dimension, and nothing but this call's draws
+enters the result.  `none`: the supplied direction does not have the PHS's dimension (or the transform is not set). -/
+def uniformPhs (root : Nat → α → α) (p : Phs α) (dir : List α) (u : α) : Option (List α) :=
+  if dir.length = p.dim then p.transform (uniformInBall root (Num.ofNat 1) dir u) else none
+
+/-- a sequence of `uniformProlateHyperspheroid` calls on possibly DIFFERENT PHSs (different dimensions), each with its own
+draws: the i-th result -/
+def uniformPhsRun (root : Nat → α → α) : List (Phs α × List α × α) → List (Option (List α))
+  | [] => []
+  | (p, dir, u) :: rest => uniformPhs root p dir u :: uniformPhsRun root rest
+
 /-! ## PathLengthDirectInfSampler -/
 
 structure Sampler (α : Type) where
